@@ -64,12 +64,23 @@ def rwx_term(r):
     return "(%d, %s, %s, %s)" % (r["idx"], clist(r["ap"], hb), clist(r["rw"], hb), opt_h(r["root"]))
 
 
+def seq_term(r):
+    ops = clist(r["ops"], lambda o: "(%d, %d, %d)" % tuple(o))
+    rl = "None" if r["rl"] is None else "(Some %s)" % st_term(r["rl"])
+    prf = clist(r["proofs"], lambda p: "(%s, %s, %s, %s, %s)" % (clist(p["qids"]), cbool(p["err"]), clist(p["idxs"]),
+                                                              clist(p["sibs"], hb), cbool(p["ver"])))
+    rws = clist(r["rws"], lambda w: "(%d, %s, %s, %s)" % (w["idx"], "None" if w["w"] is None else "(Some %s)" % clist(w["w"], hb),
+                                                       opt_h(w["root"]), cbool(w["ver"])))
+    return "(%d, %s, %s, %s, %s, %s, %s)" % (r["seed"], clist(r["ids"]), ops, st_term(r["st"]), rl, prf, rws)
+
+
 KINDS = {
     "app": ("app_case", "check_app", app_term, 12),
     "proof": ("proof_case", "check_proof", proof_term, 60),
     "upd": ("upd_case", "check_upd", upd_term, 30),
     "rw": ("rw_case", "check_rw", rw_term, 120),
     "rwx": ("rwx_case", "check_rwx", rwx_term, 100),
+    "seq": ("seq_case", "check_seq", seq_term, 8),
 }
 
 
@@ -87,6 +98,8 @@ def key_of(r, spec_bad):
         return "c11:rw:%s:%s" % (cls, suffix)
     if k == "proof":
         return "c11:proof:%s:%s" % ("dup" if r.get("dup") else "nodup", suffix)
+    if k == "seq":
+        return "c11:seq:%s:%s" % (r.get("gen"), suffix)
     if k == "rwx":
         return "c11:rwx:%s:%s" % ("hang-or-panic" if r.get("root") is None else "value", suffix)
     return "c11:%s:%s" % (k, suffix)
@@ -116,7 +129,7 @@ def evaluate(ck, recs):
         rs = [r for r in recs if r["k"] == kind]
         if not rs:
             continue
-        rs = balance(rs, lambda r: r.get("n", 1) * (1 + len(r.get("tampers", []))), shard)
+        rs = balance(rs, lambda r: r.get("n", len(r.get("ids", [])) * (2 + len(r.get("proofs", [])) + len(r.get("rws", [])))) * (1 + len(r.get("tampers", []))), shard)
         # balance shards: cost grows with n
         res = ck.coq_eval(IMPORTS, typ, fn, [term(r) for r in rs], shard=shard, tag=kind, timeout=1700)
         if res is None:
@@ -129,6 +142,11 @@ def evaluate(ck, recs):
                 ck.nontrivial(("proof", r["n"], tuple(r["qs"]), tuple(map(tuple, r["ups"]))))
             elif kind == "upd":
                 ck.nontrivial(("upd", r["n"], tuple(map(tuple, r["ups"]))))
+            elif kind == "seq":
+                ck.nontrivial(("seq", tuple(r["ids"]), json.dumps(r["ops"]), json.dumps(r["qs"])))
+                sub = [x.get("panic") for x in r["proofs"] + r["rws"] if x.get("panic")]
+                if sub:
+                    r = dict(r, panic=sub[0])
             elif kind == "rwx":
                 ck.nontrivial(("rwx", r["idx"], len(r["ap"]), len(r["rw"])))
             else:
@@ -137,7 +155,7 @@ def evaluate(ck, recs):
                 code = max(code, 2)
             if code != 0:
                 spec_bad = code >= 2
-                small = {k: v for k, v in r.items() if k not in ("sibs",)}
+                small = {k: v for k, v in r.items() if k not in ("sibs", "proofs", "rws")}
                 what = "rmt %s: implementation %s (code %d)%s on %s" % (
                     kind, "violates the C11 oracle" if spec_bad else "differs from the proved model", code,
                     " panic=" + r["panic"] if r.get("panic") else "", json.dumps(small)[:700])
@@ -182,9 +200,9 @@ def run(ck):
     if not binp:
         return
     if ck.tier == "quick":
-        args = ["-nmax", "70", "-pexp", "8", "-nsub", "6", "-nproof", "150", "-pmax", "70", "-nupd", "120", "-rwmax", "40"]
+        args = ["-nmax", "70", "-pexp", "8", "-nsub", "6", "-nproof", "150", "-pmax", "70", "-nupd", "120", "-rwmax", "40", "-nseq", "40"]
     else:
-        args = ["-nmax", "600", "-pexp", "11", "-nsub", "8", "-nproof", "1500", "-pmax", "300", "-nupd", "800", "-rwmax", "110"]
+        args = ["-nmax", "600", "-pexp", "11", "-nsub", "8", "-nproof", "1500", "-pmax", "300", "-nupd", "800", "-rwmax", "110", "-nseq", "600", "-nrwx", "400"]
     recs = corpus(ck, binp)
     main = run_capture(ck, binp, args)
     if main is None:
